@@ -1,6 +1,7 @@
 """C07 — no peer byte stream can crash the engine: one step of on_network_bytes with arbitrary
 bytes from every protocol phase (the phase is reached by replaying an honest concrete prefix
 through the real engine first). Also decides C02's receiver-side clauses in the Data phase."""
+import re
 import z3
 from ..values import *
 from ..models import conj
@@ -259,3 +260,106 @@ def replay_greeting_phase(model, params, role):
     ch = dict(map(tuple, model.get("_choices", [])))
     srv = ch.get("is_server", 0) == 1
     return replay_generic(model, params, role, [f"engine {'server' if srv else 'client'} type=DEALER allow_zmtp2={ch.get('allow_zmtp2', 1)}", "start"])
+
+
+# ------------------------------------------------------------------------------------------------
+# CURVE (feature `curve`, MIR dump built with --features curve,noise_xx): the metadata parser that the
+# handshake commands run on peer bytes BEFORE any cryptographic check
+def curve_metadata(h):
+    """security::curve::handshake::decode_metadata on n arbitrary bytes (what follows the HELLO / WELCOME /
+    INITIATE prefix of a peer's command, or the decrypted INITIATE metadata)"""
+    lens = h.params.get("lens", [0, 1, 2, 3, 5, 6, 7, 8, 12])
+    n = lens[h.choose(len(lens), "len")]
+    data = h.bytes("meta", n)
+    h.panic_role = "c07.curve-metadata"
+    fn = h.it.resolve_fn("security::curve::handshake::decode_metadata", "")
+    h.check(fn is not None, "c07.setup.decode_metadata-in-the-full-feature-dump")
+    r = h.it.run_body(h.it.prog.body(fn), [SliceRef(Seq("array", list(data)), 0, n)])
+    h.cover("c07.curve-metadata.accepted", r.idx == 0)
+    h.cover("c07.curve-metadata.refused", r.idx == 1)
+
+
+def replay_curve_metadata(model, params, role):
+    ch = dict(map(tuple, model.get("_choices", [])))
+    lens = params.get("lens", [0, 1, 2, 3, 5, 6, 7, 8, 12])
+    n = lens[ch.get("len", 0)]
+    meta = model.get("meta", "")
+    meta = (bytes.fromhex(meta) if isinstance(meta, str) else bytes(meta)).ljust(n, b"\0")[:n]
+    greet = bytes([0xFF] + [0] * 8 + [0x7F, 3, 0]) + b"CURVE".ljust(20, b"\0") + bytes([0]) + bytes(31)
+    hello = b"\x05HELLO" + meta
+    frame = (bytes([0x04, len(hello)]) if len(hello) < 256 else bytes([0x06]) + len(hello).to_bytes(8, "big")) + hello
+    script = "engine server type=REP curve_sk=" + "11" * 32 + "\nstart\nfeed " + (greet + frame).hex() + "\nphase\n"
+    return script, (lambda out: "PANIC" in out), "CURVE listener fed a greeting and a HELLO command whose metadata are the counterexample bytes; expecting a panic"
+
+
+CURVE_HS = "security::curve::handshake::CurveHandshake"
+
+
+def curve_command_tokens(h):
+    """CurveHandshake::process_server_welcome (connector) / process_client_initiate (listener) on a peer command whose
+    metadata carry a Cookie / Ciphertext value of L arbitrary bytes. The cryptographic primitives (dryoc) are opaque:
+    opening a box either fails or yields arbitrary bytes. Only the parsing in front of and behind them is checked."""
+    from ..models import some, none, ok, err
+    prog = h.it.prog
+    which = h.choose(2, "command")                   # 0 WELCOME seen by the connector, 1 INITIATE seen by the listener
+    lens = h.params.get("value_lens", [0, 1, 15, 16, 17, 48])
+    L = lens[h.choose(len(lens), "value_len")]
+    val = h.bytes("value", L)
+    key = b"Cookie" if which == 0 else b"Ciphertext"
+    prefix = b"\x07WELCOME" if which == 0 else b"\x08INITIATE"
+    token = list(prefix) + [len(key)] + list(key) + list(L.to_bytes(4, "big")) + list(val)
+    fields = prog.struct_fields(CURVE_HS)
+    kp = Agg("{keypair}", [Opaque("pk"), Opaque("sk")])
+    vals = {"phase": Opaque("phase"), "is_server": which == 1, "local_static_keypair": kp, "remote_static_public_key": some(Opaque("pk")),
+            "local_ephemeral_keypair": kp, "remote_ephemeral_public_key": some(Opaque("pk")), "precomputed_key": none(), "send_nonce": 1, "recv_nonce": 1}
+    hs = Ref(Cell(Agg(CURVE_HS, [vals.get(f, Opaque(f)) for f in fields]), "hs"), ())
+    opened = {"n": 0}
+    def extern(it, plain, args, dty, func):
+        if "dryoc::" in plain:
+            if "crypto_box_open" in plain:
+                opened["n"] += 1
+                # authentication of attacker-chosen bytes fails (the attacker has no key): error result
+                return err(Opaque("dryoc::Error"))
+            if plain.endswith("::try_from") or plain.endswith("TryFrom>::try_from"):
+                return ok(Opaque("dryoc-value"))
+            m = re.match(r"^<\[u8; (\d+)\] as dryoc::.*>::new_byte_array$", plain)
+            if m:
+                return Seq("array", [0] * int(m.group(1)))
+            m = re.search(r"StackByteArray::<(\d+)>::new$", func) or re.search(r"StackByteArray<(\d+)>::new$", func)
+            if m or plain.endswith("StackByteArray::new"):
+                n_ = int(m.group(1)) if m else int(re.search(r"StackByteArray<(\d+)>", dty or "StackByteArray<24>").group(1))
+                return Seq("array", [0] * n_)
+            if plain.endswith(("::as_mut_slice", "::as_slice", "::as_array", "::as_mut_array")) and args:
+                a = args[0]
+                t = a.load() if isinstance(a, Ref) else a
+                if isinstance(t, Seq):
+                    return SliceRef(a, 0, len(t.f)) if "slice" in plain else a
+                return Opaque("dryoc-bytes")
+            return Opaque("dryoc")
+        return NotImplemented
+    h.it.extern = extern
+    h.panic_role = "c07.curve-command"
+    name = "process_server_welcome" if which == 0 else "process_client_initiate"
+    r = h.method(CURVE_HS, name, hs, SliceRef(Seq("array", token), 0, len(token)))
+    h.check(isinstance(r, Enum), "c07.curve-command.returned")
+    h.cover("c07.curve-command.reached-the-box-opening", opened["n"] > 0)
+    h.cover("c07.curve-command.refused", r.idx == 1)
+
+
+def replay_curve_command_tokens(model, params, role):
+    ch = dict(map(tuple, model.get("_choices", [])))
+    lens = params.get("value_lens", [0, 1, 15, 16, 17, 48])
+    L = lens[ch.get("value_len", 0)]
+    v = model.get("value", "")
+    v = (bytes.fromhex(v) if isinstance(v, str) else bytes(v)).ljust(L, b"\0")[:L]
+    def md(k, val):
+        return bytes([len(k)]) + k + len(val).to_bytes(4, "big") + val
+    def frame(body):
+        return (bytes([0x04, len(body)]) if len(body) < 256 else bytes([0x06]) + len(body).to_bytes(8, "big")) + body
+    if ch.get("command", 0) == 1:
+        greet = bytes([0xFF] + [0] * 8 + [0x7F, 3, 0]) + b"CURVE".ljust(20, b"\0") + bytes([0]) + bytes(31)
+        hello = (b"\x05HELLO" + md(b"Public-Key-Client", bytes(range(1, 33)))).ljust(198, b"\0")
+        init = b"\x08INITIATE" + md(b"Ciphertext", v)
+        script = "engine server type=REP curve_sk=" + "11" * 32 + "\nstart\nfeed " + (greet + frame(hello)).hex() + "\nfeed " + frame(init).hex() + "\nphase\n"
+        return script, (lambda out: "PANIC" in out), f"CURVE listener: valid-looking HELLO, then INITIATE whose Ciphertext value has {L} bytes; expecting a panic"
+    return None
